@@ -17,7 +17,12 @@ class Tr:
     """translation of abstract events to API calls for one flavour"""
 
     def __init__(self, kind, flavour):
-        self.kind, self.flavour = kind, flavour      # flavour: counter | int_counter | histogram
+        # flavour: counter | int_counter | histogram | histogram_tiny | histogram_wide, optionally followed by "+trait": every flush of
+        # a local handle goes through the public LocalMetric trait (as a `&dyn LocalMetric` in a list of locals would) instead of the
+        # inherent method
+        self.trait = flavour.endswith("+trait")
+        self.kind, self.flavour = kind, flavour.replace("+trait", "")
+        self.fl = {"op": "lflush", "via": "trait"} if self.trait else {"op": "lflush"}
 
     def setup(self, mode):
         o = {"name": "m", "help": "h"}
@@ -25,7 +30,8 @@ class Tr:
         if self.kind == "hist":
             # "histogram_tiny": every observed amount lies above the only finite bound (only the implicit +Inf bucket counts it)
             # "histogram_tiny": every observed amount lies above the only finite bound; otherwise three bounds between the amounts
-            o["buckets"] = [0.5] if self.flavour == "histogram_tiny" else [2.5, 20.5, 1e12]
+            # "histogram_wide": the same three bounds after 70 bounds below every amount (the amounts land in buckets 70..73)
+            o["buckets"] = [0.5] if self.flavour == "histogram_tiny" else ([0.25 + i / 512.0 for i in range(70)] if self.flavour == "histogram_wide" else []) + [2.5, 20.5, 1e12]
             ctor = "histogram"
         if mode == "single":
             return [{"op": ctor, "as": "m", "opts": o}, {"op": "local", "of": "m", "as": "h1"}]
@@ -39,7 +45,7 @@ class Tr:
         if op == "linc":
             return [{"op": "lobserve" if hist else "linc_by", "obj": h, "v": v}]
         if op == "lflush":
-            return [{"op": "lflush", "obj": h}]
+            return [dict(self.fl, obj=h)]
         if op == "lreset":
             return [{"op": "lclear" if hist else "lreset", "obj": h}]
         if op == "lclone":
@@ -55,7 +61,7 @@ class Tr:
         if op == "lvinc":
             return [{"op": "lv_observe" if hist else "lv_inc_by", "obj": h, "vals": [k], "v": v}]
         if op == "lvflush":
-            return [{"op": "lflush", "obj": h}]
+            return [dict(self.fl, obj=h)]
         if op == "lvremove":
             return [{"op": "lv_remove", "obj": h, "vals": [k]}]
         if op == "lvclone":
@@ -168,14 +174,20 @@ def run(ctx):
             if not r["ok"]:
                 raise ToolError("LocalGen failed: %s\n%s" % (r["violated"], r["output"][-3000:]))
             behaviours = printed_values(r["output"], "REPLAY")
-            for fl in flavours:
-                tr = Tr(kind, fl)
-                jobs, marks = [], []
+            for fl0 in flavours:
+                # per history: flushes through the inherent method or through the LocalMetric trait; the three-bound layout alone or
+                # behind 70 lower bounds (variants alternate over the histories; which history gets which depends on the seed)
+                def variant(i):
+                    x = i + ctx.seed
+                    return ("histogram_wide" if fl0 == "histogram" and x % 2 else fl0) + ("+trait" if (x // 2) % 2 else "")
+                trs = {v: Tr(kind, v) for v in {variant(i) for i in range(4)}}
+                jobs, marks, fls = [], [], []
                 for i, b in enumerate(behaviours):
-                    j, m = build_job(tr, mode, b, i)
-                    jobs.append(j); marks.append(m)
-                res = run_api(ctx, exe, jobs, "loc%s%s" % (fl, mode), nproc=12)
-                for j, m, b in zip(jobs, marks, behaviours):
+                    j, m = build_job(trs[variant(i)], mode, b, i)
+                    jobs.append(j); marks.append(m); fls.append(variant(i))
+                res = run_api(ctx, exe, jobs, "loc%s%s" % (fl0, mode), nproc=12)
+                for j, m, b, fl in zip(jobs, marks, behaviours, fls):
+                    tr = trs[fl]
                     rs = res[j["id"]]
                     total += 1
                     ok = True
@@ -203,7 +215,7 @@ def run(ctx):
                             break
                     nconf += 1 if ok else 0
                 if len(samples) < 4 and behaviours:
-                    samples.append({"flavour": fl, "mode": mode, "history": [(x["op"], x["h"], x["g"], x["k"], x["v"]) for x in behaviours[len(behaviours) // 2]]})
+                    samples.append({"flavour": fl0, "mode": mode, "history": [(x["op"], x["h"], x["g"], x["k"], x["v"]) for x in behaviours[len(behaviours) // 2]]})
     ntr_ok, ntr = trace_direction(ctx, exe)
     import afcheck
     af = afcheck.run(ctx, exe)
@@ -274,7 +286,7 @@ def trace_direction(ctx, exe):
     ntr = 12 if ctx.quick else 120
     tlen = 80 if ctx.quick else 150
     okc, n = 0, 0
-    for kind, fl in (("counter", "counter"), ("counter", "int_counter"), ("hist", "histogram"), ("hist", "histogram_tiny")):
+    for kind, fl in (("counter", "counter"), ("counter", "int_counter+trait"), ("hist", "histogram_wide+trait"), ("hist", "histogram_tiny")):
         tr = Tr(kind, fl)
         for mode in ("single", "vec"):
             plans, jobs, marks = [], [], []
